@@ -194,10 +194,21 @@ def _call_error(msg):
 
 
 def _node_error(msg):
-    from uberjob._errors import NodeError
+    """An instance of the library's *internal* node-error type raised by a user function (it must be treated like
+    any other failure of that call). If the internal class is not where it used to be, any Exception serves."""
     from uberjob.graph import Call
 
-    return NodeError(Call(len))
+    try:
+        from uberjob._errors import NodeError
+    except Exception:
+        try:
+            from uberjob._execution.run_function_on_graph import NodeError
+        except Exception:
+            return Exception(msg)
+    try:
+        return NodeError(Call(len))
+    except Exception:
+        return Exception(msg)
 
 
 EXC_TYPES = {
